@@ -104,6 +104,11 @@ func c07Header(c c07Case) string {
 		return "From: <" + a + ">, <b@" + c.FromDom + ">\r\nSubject: x\r\n\r\n"
 	case "two-fields":
 		return "From: <" + a + ">\r\nFrom: <b@" + c.FromDom + ">\r\nSubject: x\r\n\r\n"
+	case "empty-field-then-one":
+		// two From fields, the first of them empty
+		return "From:\r\nFrom: <" + a + ">\r\nSubject: x\r\n\r\n"
+	case "one-then-empty-field":
+		return "From: <" + a + ">\r\nFrom:\r\nSubject: x\r\n\r\n"
 	case "group":
 		return "From: Team: <" + a + ">, <b@" + c.FromDom + ">;\r\nSubject: x\r\n\r\n"
 	default:
@@ -348,7 +353,7 @@ var c07Families = []c07Family{
 func TestVerifC07(t *testing.T) {
 	r := vx.Start("C07", "dmarc")
 	defer r.Finish()
-	r.Rule("part A (alignment): From domain in {organizational, subdomain, public suffix} under a single-label and a multi-label public suffix, lower- and upper-case x every multiset of 1-2 DKIM results (values x {exact, subdomain, sibling, public suffix, unrelated} x case, plus look-alike names ending in the organizational domain without a label boundary) x one SPF result (values x MAIL FROM/HELO identity x the same domains) x adkim/aspf in {r,s}^2, with p=reject sp=quarantine at the organizational domain; part B (policy): p x sp x pct x lookup outcome {at domain, at organizational domain, none, multiple, NXDOMAIN, SERVFAIL, nothing at the domain + SERVFAIL at the organizational domain, unrelated TXT at the domain + record at the organizational domain} x From shapes {one, none, two addresses, two fields, group, unparsable} x representative authentication outcomes; every case through the real dmarc.Verifier as driven by the pipeline's checkRunner (checkBody + applyResults); oracle: RFC 7489 reference over the public-suffix list (pass iff aligned pass; action = p / sp; temperror on an alignable identifier under reject => 4xx; temporary lookup failure => 4xx; no single author => never pass). Non-trivial: distinct cases whose reference outcome is pass, refusal or quarantine")
+	r.Rule("part A (alignment): From domain in {organizational, subdomain, public suffix} under a single-label and a multi-label public suffix, lower- and upper-case x every multiset of 1-2 DKIM results (values x {exact, subdomain, sibling, public suffix, unrelated} x case, plus look-alike names ending in the organizational domain without a label boundary) x one SPF result (values x MAIL FROM/HELO identity x the same domains) x adkim/aspf in {r,s}^2, with p=reject sp=quarantine at the organizational domain; part B (policy): p x sp x pct x lookup outcome {at domain, at organizational domain, none, multiple, NXDOMAIN, SERVFAIL, nothing at the domain + SERVFAIL at the organizational domain, unrelated TXT at the domain + record at the organizational domain} x From shapes {one, none, two addresses, two fields, an empty field before / after a filled one, group, unparsable} x representative authentication outcomes; every case through the real dmarc.Verifier as driven by the pipeline's checkRunner (checkBody + applyResults); oracle: RFC 7489 reference over the public-suffix list (pass iff aligned pass; action = p / sp; temperror on an alignable identifier under reject => 4xx; temporary lookup failure => 4xx; no single author => never pass). Non-trivial: distinct cases whose reference outcome is pass, refusal or quarantine")
 	r.Assume("golang.org/x/net/publicsuffix on lower-cased names is the ground truth for organizational domains; a temperror on an identifier that cannot align may be answered 4xx or 5xx under p=reject (the statement does not decide)")
 	if rp := r.Replay(); rp != nil {
 		var c c07Case
@@ -447,7 +452,7 @@ func TestVerifC07(t *testing.T) {
 			{[]c07Auth{{"temperror", fam.unrelated}}, c07Auth{"none", fam.unrelated}},
 			{[]c07Auth{{"pass", fam.sibling}, {"temperror", fam.org}}, c07Auth{"softfail", fam.org}},
 		}
-		for _, shape := range []string{"one", "none", "two-addr", "two-fields", "group", "garbage"} {
+		for _, shape := range []string{"one", "none", "two-addr", "two-fields", "empty-field-then-one", "one-then-empty-field", "group", "garbage"} {
 			for _, from := range froms {
 				for _, rep := range reps {
 					for _, m := range []string{"rr", "ss"} {
